@@ -626,6 +626,12 @@ class Stmts:
                 n = z3.If(hi > lo, (hi - lo + (step - 1)) / step, 0)
                 return ("symbolic", n, lambda idx: VInt(lo + idx * step))
             raise Unsupported("range with symbolic step")
+        if isinstance(it, VBuiltin) and it.name == "iterator-object":
+            if it.items is not None:  # type: ignore
+                return ("concrete", list(it.items[it.pos:]))  # type: ignore
+            src, pos = it.source, it.pos  # type: ignore
+            n = src.length() - pos
+            return ("symbolic", z3.If(n > 0, n, 0), lambda idx: self.list_get(src, idx + pos, node, fr))
         if isinstance(it, VBuiltin) and it.name == "enumerate-object":
             inner = self.iter_view(it.inner, node, fr)  # type: ignore
             start = it.start  # type: ignore
